@@ -22,6 +22,13 @@ func (p *Parser) Expression() ast.Expr {
 // A given call processes everything >= minprec.
 // It recurses to process the right hand side of each operator.
 func (p *Parser) pcExpr(minprec int8) ast.Expr {
+	p.NestIn()
+	e := p.pcExpr2(minprec)
+	p.NestOut()
+	return e
+}
+
+func (p *Parser) pcExpr2(minprec int8) ast.Expr {
 	org := p.Pos
 	e := p.atom()
 	// fmt.Println("pcExpr minprec", minprec, "atom", e)
